@@ -45,6 +45,31 @@ Definition lut_ref (ft : feat) (P : pspec) (r : N) : list (N * list N) :=
       end
   | None => []
   end.
+(** the planes EVERY clear_frame writes: the planes written by clear_frame on a freshly constructed
+    controller under each valuation of the driver fields that select a mode (refresh mode, partial
+    flag) - a driver may deliberately leave a plane alone in one mode (epd2in13_v2 keeps its base image in
+    quick mode), so only planes written in all modes are demanded of every clear *)
+Definition clear_planes (ft : feat) (P : pspec) (s0 : sys) (d : dstate) : option (list N) :=
+  match sys_op ft P 1 (mkSys d (y_c s0)) OClear with
+  | OpOk _ es _ => Some (flat_map (fun e => match written_cmd e with Some c => [c] | None => [] end) es)
+  | _ => None
+  end.
+Definition clear_ref (ft : feat) (P : pspec) : list N :=
+  match sys_new ft P with
+  | Some (s0, _, _) =>
+      let d0 := y_d s0 in
+      let variants := [d0; set_refresh 1 d0; set_refresh 0 d0; set_partial true d0; set_partial true (set_refresh 1 d0)] in
+      match clear_planes ft P s0 d0 with
+      | Some base =>
+          filter (fun c => forallb (fun d => match clear_planes ft P s0 d with
+                                             | Some l => existsb (N.eqb c) l
+                                             | None => true
+                                             end) variants) base
+      | None => []
+      end
+  | None => []
+  end.
+
 Definition luts_eqb (a b : list (N * list N)) : bool :=
   (fix go a b := match a, b with
                  | [], [] => true
@@ -79,7 +104,7 @@ Definition tag (p : N) (l : list clause) : list (N * clause) := map (pair p) l.
 (** Check one API call [o] (call index [k]) that made transport calls [ic], from observer state
     [os].  [lref r] = reference tables of mode r; [isig] = init signature.
     Returns the new observer state and the violated (property number, clause) pairs. *)
-Definition observe (P : pspec) (sm : sem) (lref : N -> list (N * list N)) (isig : list N)
+Definition observe (P : pspec) (sm : sem) (lref : N -> list (N * list N)) (isig : list N) (cref : list N)
            (k : N) (os : ostate) (o : op) (ic : list icall) : ostate * list (N * clause) :=
   let '(c1, es) := ccall (ps_cp P) (o_c os) ic in
   let full_prop := if o_n os =? 0 then 1 else 2 in     (* C01 on a fresh driver, C02 after a history *)
@@ -95,7 +120,8 @@ Definition observe (P : pspec) (sm : sem) (lref : N -> list (N * list N)) (isig 
                    else flat_map (fun e => match burst_cmd e with Some c => [ClOtherPlane c] | None => [] end) es)
         | OClear =>
             match primary P with
-            | Some t => tag 7 (chk_c07 P sm (t_cmd t) (option_map (enc_byte (t_enc t)) (colour_byte P (o_bg os))) es)
+            | Some t => tag 7 (chk_c07 P sm (t_cmd t) (option_map (enc_byte (t_enc t)) (colour_byte P (o_bg os))) es ++
+                               flat_map (fun c => if existsb (writes_plane c) es then [] else [ClNoBurst c]) cref)
             | None => []
             end
         | OSleep => tag 8 (chk_sleep P es)
